@@ -428,6 +428,7 @@ func Replay(path string, env *Env) int {
 		env.Tier = rf.Tier
 	}
 	if p.Setup != nil {
+		ProcScratch = env.Scratch
 		if err := p.Setup(env); err != nil {
 			fmt.Fprintln(os.Stderr, "setup:", err)
 			return 2
